@@ -17,12 +17,12 @@ W = [4, 2, 4, 3, 2, 2, 1, 5, 3, 2, 2, 1, 1, 1, 1, 1]
 
 
 def bounds(tier):
-    return dict(variables='3-4', random_histories=400 if tier == 'quick' else 6000, max_len=80,
+    return dict(variables='3-4', random_histories=400 if tier == 'quick' else 6000 * DEEP, max_len=80,
                 enumerated_len=3 if tier == 'quick' else 4)
 
 
 def chunks(tier, seed):
-    n = 400 if tier == 'quick' else 6000
+    n = 400 if tier == 'quick' else 6000 * DEEP
     out = []
     per = 10
     for k in range(0, n, per):
